@@ -23,8 +23,13 @@
      (some other owner of the Arc; [AExtDrop] drops it).  REFERENCE_CHUTE: `chute` = the on_drop job is queued on
      it; [ADispose] runs it (l.478-480 -> l.295).
    * The consumer: `cst`.  [ACPoll] is `poll_next` (one critical section, l.489-508), the wake of the taken
-     back-pressure waker happens afterwards outside the lock (l.511) in [ACons] steps.  The consumer can poll when
-     idle, or when it returned Pending and its waker has been called (`cwoken`).  After `Ready(None)` it does not
+     back-pressure waker happens afterwards outside the lock (l.511) in [ACons] steps.  The consumer may poll at ANY
+     time while it exists and is not inside poll_next: [ACPoll] is the poll it owes (it is idle, or the waker of its
+     most recent Pending poll has been called: `cwoken`), [ACProbe] is a spurious poll (select!, now_or_never, a poll
+     from another task) while it is waiting; both run the same [poll_step].  Every Pending poll carries a FRESH waker
+     identity (`cw_next`), `clatest` is the identity of the most recent one: the waker the consumer waits on.  The code
+     stores it unconditionally (l.504 `core.notify = Some(context.waker().clone())`), replacing an older one; this is the
+     fact [f_poll_next_replaces_waker].  Calling an older waker is a no-op.  After `Ready(None)` the consumer does not
      poll again ([CDone]).  [ACDrop] may happen whenever the consumer is not inside `poll_next`.
 
    DEVIATIONS / DECISIONS (every place where steps are not literally one lock section)
@@ -44,8 +49,10 @@
    D4. `pipe` ends with `desync.sync(|_| {})` (l.395), i.e. the consumer only gets the stream when job 0 has
        finished.  The model lets the consumer act from the start (a superset of behaviours; job 0's steps are
        always enabled, so terminal states are the same).
-   D5. `notify.map(|n| n.wake())` with `None` is still a (no-op, LNone) step [JWake false k].
-   D6. The consumer's waker is a single abstract waker (`notify : bool`); calling it sets `cwoken`.
+   D5. `notify.map(|n| n.wake())` with `None` is still a (no-op, LNone) step [JWake None k].
+   D6. Consumer wakers are identified by the number of the Pending poll that supplied them (`notify : option nat`); calling
+       the latest one sets `cwoken`.  (A real waker object may be passed to several polls; the model's identities are
+       finer, which only adds no-op wakes.)
    D7. `process.lock()` (l.370) is the mutex of the processing closure (log class `pipeobj`, second instance); [JProc] is
        labelled LProcess.  The processing future is one step producing `f item`.
    D8. When the job returns `true` at l.321/l.350 the step ends the job (`running := None`); when it returns false
@@ -62,9 +69,12 @@ Inductive label := LPollFn | LStream | LInput | LProcess | LPipeWaker | LNone.
 Record pfacts := {
   f_pending_recheck : bool;   (* the Pending arm (l.348-351) tests `closed` under the lock that stores notify_stream_closed *)
   f_default_depth : nat;      (* PIPE_BACKPRESSURE_COUNT (l.67) *)
+  f_poll_next_replaces_waker : bool;  (* poll_next stores the caller's waker unconditionally (l.504), replacing an older one *)
 }.
-Definition facts_unrepaired : pfacts := {| f_pending_recheck := false; f_default_depth := 5 |}.
-Definition facts_repaired : pfacts := {| f_pending_recheck := true; f_default_depth := 5 |}.
+Definition facts_unrepaired : pfacts := {| f_pending_recheck := false; f_default_depth := 5; f_poll_next_replaces_waker := true |}.
+Definition facts_repaired : pfacts := {| f_pending_recheck := true; f_default_depth := 5; f_poll_next_replaces_waker := true |}.
+(* a mutant: poll_next stores the waker only `if core.notify.is_none()` *)
+Definition facts_stale_waker : pfacts := {| f_pending_recheck := true; f_default_depth := 5; f_poll_next_replaces_waker := false |}.
 
 (* a thread that is calling a PipeWaker *)
 Inductive wk :=
@@ -83,27 +93,27 @@ Inductive jpc :=
 | JEndClose                   (* l.356-361 [LStream] closed := true; notify.take() *)
 | JProc (x : nat)             (* l.370-371 process(core, x).await *)
 | JPush (v : nat)             (* l.374-379 [LStream] push_back; notify.take() *)
-| JWake (n : bool) (k : kont) (* l.331 / l.362 / l.380: wake the taken consumer waker (if n) outside the lock *)
+| JWake (n : option nat) (k : kont) (* l.331 / l.362 / l.380: wake the taken consumer waker (if any) outside the lock *)
 | JClear.                     (* l.148 [LPollFn] poll_fn := None *)
 Inductive cpc :=
 | CIdle | CRun (pend : bool) | CPend | CDone
 | CDrop1    (* inside Drop::drop, core lock held *)
 | CDrop2    (* lock released, `core` Arc not yet dropped *)
 | CGone.
-Inductive actor := AProd | ACPoll | ACons | ACDrop | ACSetDepth (d : nat) | AItem | AEnd | AEnv | ADispose | AExtDrop.
+Inductive actor := AProd | ACPoll | ACProbe | ACons | ACDrop | ACSetDepth (d : nat) | AItem | AEnd | AEnv | ADispose | AExtDrop.
 #[export] Instance actor_eq_dec : EqDecision actor. Proof. solve_decision. Defined.
 
 Record state := {
   (* input stream (environment) *)
   inp_rest : list nat; inp_avail : nat; inp_ended : bool; inp_waker : option nat; taken : list nat;
   (* PipeStreamCore *)
-  depth : nat; pending : list nat; closed : bool; notify : bool; nsc : option nat; bp : option nat;
+  depth : nat; pending : list nat; closed : bool; notify : option nat; nsc : option nat; bp : option nat;
   (* PipeContext / PipeWakers *)
   poll_fn : bool; njobs : nat; wtaken : list nat;
   (* ObjExec *)
   jobq : list nat; running : option (nat * jpc);
   (* consumer *)
-  cst : cpc; cwoken : bool; cwk : wk; delivered : list nat; got_end : bool;
+  cst : cpc; cw_next : nat; clatest : nat; cwoken : bool; cwk : wk; delivered : list nat; got_end : bool;
   (* environment thread *)
   ewk : wk;
   (* references *)
@@ -111,7 +121,7 @@ Record state := {
 }.
 #[export] Instance eta_state : Settable _ := settable! Build_state
   <inp_rest; inp_avail; inp_ended; inp_waker; taken; depth; pending; closed; notify; nsc; bp; poll_fn; njobs; wtaken; jobq; running;
-   cst; cwoken; cwk; delivered; got_end; ewk; strong_held; ext_owner; chute>.
+   cst; cw_next; clatest; cwoken; cwk; delivered; got_end; ewk; strong_held; ext_owner; chute>.
 
 Definition core_locked (s : state) : bool := match s.(cst) with CDrop1 => true | _ => false end.
 Definition core_gone (s : state) : bool := match s.(cst) with CGone => true | _ => false end.
@@ -143,7 +153,7 @@ Definition job_step (F : pfacts) (f : nat -> nat) (s : state) (j : nat) (pc : jp
   | JFull => if core_locked s then None else
              if s.(depth) <=? length s.(pending) then fin (s <| bp := Some j |>)
              else if s.(closed) then goto s JClosedTake else goto s JLoop
-  | JClosedTake => if core_locked s then None else goto (s <| notify := false |>) (JWake s.(notify) KRet)
+  | JClosedTake => if core_locked s then None else goto (s <| notify := None |>) (JWake s.(notify) KRet)
   | JLoop => if core_locked s then None else goto (s <| nsc := None |>) JInput
   | JInput => match s.(inp_rest), s.(inp_avail) with
               | x :: r, S n => goto (s <| inp_rest := r |> <| inp_avail := n |> <| taken := s.(taken) ++ [x] |>) (JProc x)
@@ -152,17 +162,38 @@ Definition job_step (F : pfacts) (f : nat -> nat) (s : state) (j : nat) (pc : jp
   | JPendStore => if core_locked s then None else
                   if F.(f_pending_recheck) && s.(closed) then goto s JClear
                   else fin (s <| nsc := Some j |>)
-  | JEndClose => if core_locked s then None else goto (s <| closed := true |> <| notify := false |>) (JWake s.(notify) KRet)
+  | JEndClose => if core_locked s then None else goto (s <| closed := true |> <| notify := None |>) (JWake s.(notify) KRet)
   | JProc x => goto s (JPush (f x))
   | JPush v => if core_locked s then None else
-               goto (s <| pending := s.(pending) ++ [v] |> <| notify := false |>) (JWake s.(notify) KLoop)
-  | JWake n k => let s1 := if n then s <| cwoken := true |> else s in
+               goto (s <| pending := s.(pending) ++ [v] |> <| notify := None |>) (JWake s.(notify) KLoop)
+  | JWake n k => let s1 := match n with
+                           | Some w => if w =? s.(clatest) then s <| cwoken := true |> else s
+                           | None => s
+                           end in
                  match k with KLoop => goto s1 JLoop | KRet => goto s1 JClear end
   | JClear => fin (s <| poll_fn := false |>)
   end.
 
+(* the consumer owes a poll *)
 Definition pollable (s : state) : bool :=
   match s.(cst) with CIdle => true | CPend => s.(cwoken) | _ => false end.
+(* the consumer is waiting; it may still poll (spuriously) *)
+Definition probe_pollable (s : state) : bool :=
+  match s.(cst) with CPend => negb s.(cwoken) | _ => false end.
+(* PipeStream::poll_next, l.489-508 *)
+Definition poll_step (F : pfacts) (s : state) : option state :=
+  match s.(pending) with
+  | v :: p => Some (s <| pending := p |> <| delivered := s.(delivered) ++ [v] |> <| bp := None |>
+                      <| cwk := wk_of s.(bp) |> <| cst := CRun false |>)
+  | [] => if s.(closed) then Some (s <| cst := CDone |> <| got_end := true |>)
+          else let w := s.(cw_next) in
+               let stored := match s.(notify) with
+                             | Some w0 => if F.(f_poll_next_replaces_waker) then Some w else Some w0
+                             | None => Some w
+                             end in
+               Some (s <| bp := None |> <| cwk := wk_of s.(bp) |> <| notify := stored |> <| cw_next := S w |>
+                       <| clatest := w |> <| cwoken := false |> <| cst := CRun true |>)
+  end.
 Definition outside_poll (s : state) : bool :=
   match s.(cst) with CIdle | CPend | CDone => true | _ => false end.
 
@@ -176,16 +207,8 @@ Definition step (F : pfacts) (f : nat -> nat) (s : state) (a : actor) : option s
                 end
       | Some (j, pc) => job_step F f s j pc
       end
-  | ACPoll =>
-      if pollable s then
-        match s.(pending) with
-        | v :: p => Some (s <| pending := p |> <| delivered := s.(delivered) ++ [v] |> <| bp := None |>
-                            <| cwk := wk_of s.(bp) |> <| cst := CRun false |>)
-        | [] => if s.(closed) then Some (s <| cst := CDone |> <| got_end := true |>)
-                else Some (s <| bp := None |> <| cwk := wk_of s.(bp) |> <| notify := true |> <| cwoken := false |>
-                             <| cst := CRun true |>)
-        end
-      else None
+  | ACPoll => if pollable s then poll_step F s else None
+  | ACProbe => if probe_pollable s then poll_step F s else None
   | ACons =>
       if wk_idle s.(cwk) then
         match s.(cst) with
@@ -219,9 +242,9 @@ Definition run (F : pfacts) (f : nat -> nat) (s : state) (tr : list actor) : opt
 (* `ext` = some owner other than the pipe keeps an Arc<Desync>.  Job 0 is the initial PipeContext::poll (l.392). *)
 Definition init (F : pfacts) (inputs : list nat) (ext : bool) : state :=
   {| inp_rest := inputs; inp_avail := 0; inp_ended := false; inp_waker := None; taken := [];
-     depth := F.(f_default_depth); pending := []; closed := false; notify := false; nsc := None; bp := None;
+     depth := F.(f_default_depth); pending := []; closed := false; notify := None; nsc := None; bp := None;
      poll_fn := true; njobs := 1; wtaken := []; jobq := [0]; running := None;
-     cst := CIdle; cwoken := false; cwk := WIdle; delivered := []; got_end := false;
+     cst := CIdle; cw_next := 0; clatest := 0; cwoken := false; cwk := WIdle; delivered := []; got_end := false;
      ewk := WIdle; strong_held := true; ext_owner := ext; chute := false |}.
 
 (* ---------- labels: the mutex class of the critical section a step corresponds to ---------- *)
@@ -238,7 +261,7 @@ Definition jpc_label (pc : jpc) : label :=
 Definition label_of (s : state) (a : actor) : label :=
   match a with
   | AProd => match s.(running) with Some (_, pc) => jpc_label pc | None => LNone end
-  | ACPoll | ACDrop | ACSetDepth _ => LStream
+  | ACPoll | ACProbe | ACDrop | ACSetDepth _ => LStream
   | ACons => wk_label s.(cwk)      (* at CDrop1 with an idle cwk this is the END of the LStream section opened by ACDrop *)
   | AEnv => wk_label s.(ewk)
   | AItem | AEnd | ADispose | AExtDrop => LNone
@@ -252,9 +275,9 @@ Definition job_inflight (s : state) (f : nat -> nat) : list nat :=
 (* the consumer has returned (or is about to return) Pending and has not been woken since *)
 Definition cons_waiting (s : state) : bool :=
   match s.(cst) with CPend | CRun true => negb s.(cwoken) | _ => false end.
-(* a wake of the consumer's waker is in flight: taken out of `notify`, about to be called by the job *)
+(* a wake of the consumer's LATEST waker is in flight: taken out of `notify`, about to be called by the job *)
 Definition cons_wake_inflight (s : state) : bool :=
-  match s.(running) with Some (_, JWake true _) => true | _ => false end.
+  match s.(running) with Some (_, JWake (Some w) _) => w =? s.(clatest) | _ => false end.
 (* a wake of a PipeWaker / a PipeContext::poll is in flight in thread slot w and will have an effect *)
 Definition wk_tokw (wt : list nat) (w : wk) : bool :=
   match w with WIdle => false | WCall j => live_in wt j | WCtx | WTakeFn => true end.
@@ -265,9 +288,9 @@ Arguments live_in : simpl never.
 Arguments wk_tokw _ !w /.
 Arguments live_optw _ !o /.
 
-(* mandatory actors: everything except the consumer's free choices (drop, set depth) and the external owner's choice
-   to give up its reference to the Desync *)
-Definition optional (a : actor) : bool := match a with ACDrop | ACSetDepth _ | AExtDrop => true | _ => false end.
+(* mandatory actors: everything except the consumer's free choices (drop, set depth, spurious polls) and the external
+   owner's choice to give up its reference to the Desync *)
+Definition optional (a : actor) : bool := match a with ACDrop | ACSetDepth _ | AExtDrop | ACProbe => true | _ => false end.
 Definition env_event (a : actor) : bool := match a with AItem | AEnd => true | _ => false end.
 (* terminal: no mandatory actor can move *)
 Definition terminal (F : pfacts) (f : nat -> nat) (s : state) : Prop :=
@@ -276,7 +299,7 @@ Definition terminal (F : pfacts) (f : nat -> nat) (s : state) : Prop :=
 Definition terminal_silent (F : pfacts) (f : nat -> nat) (s : state) : Prop :=
   forall a, optional a = false -> env_event a = false -> step F f s a = None.
 (* executable versions, for examples *)
-Definition all_actors : list actor := [AProd; ACPoll; ACons; ACDrop; ACSetDepth 1; AItem; AEnd; AEnv; ADispose; AExtDrop].
+Definition all_actors : list actor := [AProd; ACPoll; ACProbe; ACons; ACDrop; ACSetDepth 1; AItem; AEnd; AEnv; ADispose; AExtDrop].
 Definition terminalb (F : pfacts) (f : nat -> nat) (s : state) : bool :=
   forallb (fun a => optional a || match step F f s a with None => true | Some _ => false end) all_actors.
 Definition terminal_silentb (F : pfacts) (f : nat -> nat) (s : state) : bool :=
